@@ -599,7 +599,23 @@ Multi<ItemType, MultiChannelType, INSTRUMENTS, DerivedItemType> {
     /// callback), most probably you want to close them atomically -- see [multis_close_async!()].\
     /// Returns `true` if all events could be flushed within the given `timeout`.
     pub async fn close(&self, timeout: Duration) -> bool {
-        self.channel.gracefully_end_all_streams(timeout).await == 0
+        let start = std::time::Instant::now();
+        let closed = self.channel.gracefully_end_all_streams(timeout).await == 0;
+        // the streams have ended, but executors with `concurrency_limit > 1` may still have item futures in flight:
+        // wait for the executors themselves, so every accepted event is fully processed when we return
+        while closed && self.executor_infos.read().await.values().any(|executor_info| !Self::has_executor_ended(executor_info)) {
+            if timeout != Duration::ZERO && start.elapsed() > timeout {
+                return false
+            }
+            tokio::time::sleep(Duration::from_millis(1)).await;
+        }
+        closed
+    }
+
+    /// Tells if the executor is done with all its items -- its `Stream` ended and nothing is in flight anymore
+    fn has_executor_ended(executor_info: &ExecutorInfo) -> bool {
+        matches!(executor_info.executor_stats.executor_status().load(std::sync::atomic::Ordering::Relaxed),
+                 crate::stream_executor::ExecutorStatus::StreamEnded | crate::stream_executor::ExecutorStatus::ProgrammaticallyEnded)
     }
 
     /// Asynchronously blocks until all resources associated with the executor responsible for `pipeline_name` are freed:
@@ -629,7 +645,15 @@ Multi<ItemType, MultiChannelType, INSTRUMENTS, DerivedItemType> {
 
         // wait until all elements are taken out from the queue
         executor_info.executor_stats.report_scheduled_to_finish();
+        let start = std::time::Instant::now();
         self.channel.gracefully_end_stream(executor_info.stream_id, timeout).await;
+        // (as in `close()`: item futures may still be in flight after the stream ended)
+        while !Self::has_executor_ended(&executor_info) {
+            if timeout != Duration::ZERO && start.elapsed() > timeout {
+                break
+            }
+            tokio::time::sleep(Duration::from_millis(1)).await;
+        }
         true
     }
 
